@@ -157,11 +157,62 @@ def report(q, k, rows):
     return sorted(out)
 
 
-def model(q, W, k, files):
-    return report(q, k, all_rows(q, W, files))
+def model(q, W, k, files, patterns=(), paths=None):
+    rep = report(q, k, all_rows(q, W, files))
+    return [v for v in rep if not suppressed(files, patterns, paths, v[0], v[1], v[3])]
 
 
-ACTUAL = (True, True, True)
+# ------------------------------------------------------------------ suppression (mirror of Model/DryPipe.v stage C)
+SPELL = {" dry: ignore-block": "DryBlock", " dry: ignore-next": "DryNext", " thailint: ignore-file dry": "File",
+         " thailint: ignore-file[dry]": "File", " thailint: ignore dry": "Line", " thailint: ignore[dry]": "Line",
+         " thailint: ignore-next-line[dry]": "NextLine", " thailint: ignore-start dry": "Start", " thailint: ignore-end": "End"}
+HEADER_SCAN_LINES = 10
+
+
+def directive_of(lang, l):
+    if l[0] != "C" or l[3] is None or l[3][0] != "L":
+        return None
+    k = SPELL.get(l[3][1])
+    if k in ("DryBlock", "DryNext") and lang != "py":
+        return None          # the dry: forms are only recognised behind `#`
+    return k
+
+
+def file_dirs(f):
+    return [(i, directive_of(f["lang"], l), l[2] == "") for i, l in enumerate(f["lines"], start=1) if directive_of(f["lang"], l)]
+
+
+def suppressed(files, patterns, paths, fi, line, count) -> bool:
+    if paths is not None and any(p in paths[fi] for p in patterns):
+        return True
+    f = files[fi]
+    dirs = file_dirs(f)
+    total = len(f["lines"]) + 1
+    end = line + count - 1
+    for i, k, _ in dirs:
+        if k == "DryBlock" and line <= min(i + 10, total) and end >= i + 1:
+            return True
+        if k == "DryNext" and line <= i + 1 and end >= i + 1:
+            return True
+        if k == "File" and i <= HEADER_SCAN_LINES:
+            return True
+        if k == "Line" and i == line:
+            return True
+        if k == "NextLine" and i == line - 1 and line > 1:
+            return True
+    in_block = False
+    for i, k, empty in dirs:
+        if i >= line:
+            break
+        if k == "Start" and empty:
+            in_block = True
+        elif k == "End" and empty:
+            in_block = False
+    marker_here = any(i == line and k in ("Start", "End") and empty for i, k, empty in dirs)
+    return in_block and not marker_here
+
+
+ACTUAL = (True, True, False)   # overlap test repaired by fix f9c5945
 IDEAL = (False, False, False)
 
 
@@ -182,10 +233,13 @@ def canon_range(f, s, e):
     return [c for ln, c in spec_stream(f) if s <= ln <= e]
 
 
-def spec_check(W, k, files, rep, rows=None, complete=True):
+def spec_check(W, k, files, rep, rows=None, complete=True, patterns=(), paths=None):
     """list of failed clauses of the property on a report (ideal normalisation)"""
     bad = []
     srows = all_rows(IDEAL, W, files) if rows is None else rows
+
+    def excused(f, s, e):
+        return any(r[0] == f and r[1] <= e and s <= r[2] and suppressed(files, patterns, paths, r[0], r[1], r[2] - r[1] + 1) for r in srows)
     for v in rep:
         f, line, col, count, occ, refs = v
         mine = canon_range(files[f], line, line + count - 1) if f < len(files) else None
@@ -198,8 +252,10 @@ def spec_check(W, k, files, rep, rows=None, complete=True):
                 bad.append("names-itself")
             if rf >= len(files) or canon_range(files[rf], s, e) != mine:
                 bad.append("not-identical")
-            if not any(v2[0] == rf and v2[1] <= e and s <= v2[1] + v2[3] - 1 for v2 in rep):
+            if not any(v2[0] == rf and v2[1] <= e and s <= v2[1] + v2[3] - 1 for v2 in rep) and not excused(rf, s, e):
                 bad.append("not-mutual")
+        if f < len(files) and suppressed(files, patterns, paths, f, line, count):
+            bad.append("suppressed-but-reported")
         me = [r for r in srows if r[0] == f and r[1] == line and r[2] == line + count - 1]
         if not me:
             bad.append("block-not-a-window")
@@ -216,6 +272,6 @@ def spec_check(W, k, files, rep, rows=None, complete=True):
             if len(ps) < k:
                 continue
             for b in ps:
-                if not any(v2[0] == b[0] and v2[1] <= b[2] and b[1] <= v2[1] + v2[3] - 1 for v2 in rep):
+                if not any(v2[0] == b[0] and v2[1] <= b[2] and b[1] <= v2[1] + v2[3] - 1 for v2 in rep) and not excused(b[0], b[1], b[2]):
                     bad.append("incomplete")
     return sorted(set(bad))
